@@ -52,7 +52,9 @@ def main():
                   'source_commits': hook_commits, 'add_only': True},
         'engines': [{'name': 'tla-trace', 'path': 'check.py', 'serves_properties': [c['property_id'] for c in checks],
                      'kind_free_text': 'explicit TLA+ specification (spec/*.tla) checked with TLC; edge dumps of the state graphs and '
-                                       'seeded generators drive harness/exec (real library, hooks on); TLC judges the recorded traces'}],
+                                       'seeded generators drive harness/exec (real library, hooks on); the calls of the repository\'s own test suite and example '
+                                       'program are recorded as well (ld --wrap); TLC judges the recorded traces; two inductive invariants are '
+                                       'discharged by Apalache'}],
         'checks': checks,
         'not_applicable': [{'property_id': p, 'reason': stages.NOT_APPLICABLE.get(p, NA_REASON)} for p in ALL if p not in stages.PROPS],
         'notes': 'All checks share check.py; exit 2 = machinery failure (never a VIOLATION). known_findings.json lists genuine '
